@@ -43,7 +43,9 @@ pub fn db_to(db: &Database) -> Value {
     })
 }
 
-fn match_all<OF, DS, K>(c: &FingerprintCollection<OF, DS, K>, obs: &OF) -> Value
+/// `scale`: the protocol's documented distance-to-quality scale (not the signature's own method: the reported quality is
+/// compared with what the scale assigns to the winning distance)
+fn match_all<OF, DS, K>(c: &FingerprintCollection<OF, DS, K>, obs: &OF, scale: fn(u32) -> f32) -> Value
 where
     OF: ObservedFingerprint<Key = K>,
     DS: DatabaseSignature<OF> + Display,
@@ -60,7 +62,7 @@ where
             match s.calculate_distance(obs) {
                 Some(d) => {
                     dists.push(d as i64);
-                    qs.push(q100(s.get_quality_score(d)));
+                    qs.push(q100(scale(d)));
                 }
                 None => {
                     dists.push(-1);
@@ -181,10 +183,10 @@ pub fn run(input: &mut dyn BufRead, out: &mut dyn Write, _args: &[String]) -> R 
                     let rs: Vec<Value> = arr(&v["obs"])
                         .iter()
                         .map(|o| match table {
-                            "tcp_request" => match_all(&db.tcp_request, &tcp_obs_from(o)),
-                            "tcp_response" => match_all(&db.tcp_response, &tcp_obs_from(o)),
-                            "http_request" => match_all(&db.http_request, &http_req_obs_from(o)),
-                            "http_response" => match_all(&db.http_response, &http_resp_obs_from(o)),
+                            "tcp_request" => match_all(&db.tcp_request, &tcp_obs_from(o), TcpMatchQuality::distance_to_score),
+                            "tcp_response" => match_all(&db.tcp_response, &tcp_obs_from(o), TcpMatchQuality::distance_to_score),
+                            "http_request" => match_all(&db.http_request, &http_req_obs_from(o), HttpMatchQuality::distance_to_score),
+                            "http_response" => match_all(&db.http_response, &http_resp_obs_from(o), HttpMatchQuality::distance_to_score),
                             t => panic!("table {t}"),
                         })
                         .collect();
